@@ -1,4 +1,4 @@
-"""C11 — built-in contrast codings: valid and standard for n <= 8 (ground + QF_LRA), encoding == indicator x coding for all data (SR)."""
+"""C11 — built-in contrast codings: valid and standard for n <= 8 (12 thorough) (ground + QF_LRA), encoding == indicator x coding for all data (SR)."""
 
 from __future__ import annotations
 
@@ -29,6 +29,9 @@ def q(v):
     return z3.RealVal(f"{f.numerator}/{f.denominator}")
 
 
+_LRA_CAP_MS = [12000]
+
+
 def invertible(M) -> str:
     k = M.shape[1]
     s = z3.SolverFor("QF_LRA")
@@ -41,7 +44,7 @@ def invertible(M) -> str:
     for i in range(M.shape[0]):
         row = z3.Sum([q(M[i, j]) * c[j] for j in range(k)])
         s.add(row <= eps, row >= -eps)
-    return {"unsat": "invertible", "sat": "singular"}.get(symreal._timed_check(s, hard_ms=12000), "unknown")
+    return {"unsat": "invertible", "sat": "singular"}.get(symreal._timed_check(s, hard_ms=_LRA_CAP_MS[0]), "unknown")
 
 
 def run(check: Check) -> None:
@@ -56,7 +59,8 @@ def run(check: Check) -> None:
         "explicit level lists, absent levels, nulls)."
     )
     check.info["rule"] = "configuration = (n, contrast+options, label type) for the ground/LRA part; (contrast, layout, reduced/full) for the pipeline part"
-    nmax = 8
+    nmax = 12 if thorough else 8
+    _LRA_CAP_MS[0] = 120000 if thorough else 12000
     check.bounds.update({"n": f"1..{nmax}", "label_types": ["str", "int", "mixed-order str", "ints holding 0", "strings holding ''"], "poly_symbolic_scores_n": 3})
     check.out_of_scope += [f"n > {nmax} ('for every n' cannot be symbolic: n is an array shape)", "custom contrasts"]
     rec = FunctionRecorder(check.functions)
